@@ -23,6 +23,13 @@ import (
 const REDACTED = "[REDACTED]"
 const LATEST = "latest"
 
+func init() {
+	// redactXml writes the redacted document back with mv.Xml(), which by default writes text and
+	// attribute values raw: "Tom &amp; Jerry" came back as "Tom & Jerry" and "a &lt; b" as "a < b" -
+	// the rest of the document was altered and was no longer well-formed XML.
+	mxj.XMLEscapeChars(true)
+}
+
 // bool operand evaluator. Boolean literals falls into this method.
 func boolOperand(operand interface{}) bool {
 	var _operand bool
